@@ -24,6 +24,10 @@ SetTypes == {t \in GTypes : t.k = "set"}
 BigNums == {K(TNum, [lm |-> x]) : x \in {"i64maxp", "u64maxp", "f64int", "i64max", "f32maxp"}} \cup {NumV(2)}
 Perms == UNION {{[k |-> "setperm", ty |-> t, input |-> s] : s \in SetInputs(t)} : t \in SetTypes}
          \cup {[k |-> "setperm", ty |-> TSet(TStr), input |-> s] : s \in {<<x, x>> : x \in NormStrs} \cup {<<x, y, x>> : x \in NormStrs, y \in {StrV(<<"b">>)}}}
+         \* numbers tied in value but not equal for cty (one decimal held as a float64 and that float64 carried at 512 bits; at 24 and 64 bits),
+         \* next to ordinary members: the set holds both, in an order that depends on its members only
+         \cup {[k |-> "setperm", ty |-> TSet(TNum), input |-> <<K(TNum, [dec |-> d]), K(TNum, [dec |-> d])>> \o rest, reps |-> <<r1, r2>> \o [i \in 1..Len(rest) |-> 0]]
+                : d \in {"1/10", "1/3", "7/5"}, r1 \in {1, 3}, r2 \in {4, 5}, rest \in {<<>>, <<NumV(4)>>, <<NumV(0), NumV(8)>>}}
          \cup {[k |-> "setperm", ty |-> TSet(TNum), input |-> s] : s \in {<<x, x>> : x \in BigNums} \cup {<<x, y, x>> : x \in BigNums, y \in {NumV(4)}}}
 ASSUME ndJsonSerialize(IOEnv.VOUT, Groups \o SetToSeq(Perms))
 ASSUME PrintT(<<"GEN", Len(Groups) + Cardinality(Perms)>>)
